@@ -203,7 +203,7 @@ impl Expr {
             Self::Variable(name) => {
                 let value = ctx
                     .get(name)
-                    .expect("Variable not found. This should have been found at parse time");
+                    .ok_or_else(|| ExprErrorKind::VariableNotAssigned(name.clone()))?;
                 if let crate::OutputValue::Value(n) = value {
                     Ok(n)
                 } else {
